@@ -21,4 +21,4 @@ TABLE = {
    'Only the --include sentence of C18 is decided; the first sentence (what --extract returns in every context) is a pure function and is not addressed beyond the decoys in the workload. File names contain no blanks.',
    'deterministic simulation over an in-memory file system with reference-model history oracle', 'DESIGN.md §4 C18'),
 }
-REGISTERED = ['C08', 'C14', 'C15', 'C18']
+REGISTERED = ['C08', 'C14', 'C15', 'C17', 'C18']
